@@ -641,11 +641,13 @@ pub fn ci_z_normal(
     let p = x / n;
     let q = 1. - p;
 
-    if n * p < 10. {
+    // n * p >= 10 and n * q >= 10, decided on the exact counts: evaluated in floating point,
+    // n * (1 - x / n) can fall just below 10 when exactly 10 failures were observed
+    if successes < 10 {
         // too few successes for statistical significance
         return Err(CIError::TooFewSuccesses(successes, population, n * p));
     }
-    if n * q < 10. {
+    if population - successes < 10 {
         // too few failures for statistical significance
         return Err(CIError::TooFewFailures(
             population - successes,
